@@ -44,6 +44,7 @@ def run(ctx):
     d2_paths(ctx)
     d2_factories(ctx)
     d2_newmark(ctx)
+    d2_projection_guard(ctx)
     d3_blocks(ctx)
     ctx.trust("python ast; optilint resolver (flow-insensitive name binding, transparent jax wrappers)")
     ctx.trust("jax.hessian(f) differentiates twice w.r.t. positional argument 0 unless argnums is given")
@@ -486,6 +487,42 @@ def d2_newmark(ctx):
         ctx.undecided(rule, hes, None, construct="term:other", detail="unclassified term in the Newmark Hessian density")
 
 
+# ------------------------------------------------------------------ D2: projection option guard
+
+def d2_projection_guard(ctx):
+    """The projection degree 0 (piecewise-constant J) is an advertised value, so the option must be
+    tested for `is not None`; a truthiness test silently disables it for degree 0.  All sites that
+    branch on the option must agree (contradiction rule between sibling factories)."""
+    rule = "D2/T6-projection-option-guard"
+    sites = []
+    for q in ("create_mechanics_functions", "create_multi_block_mechanics_functions",
+              "define_pressure_projection_gradient_tranformation", "create_dynamics_functions"):
+        sc = ctx.need(f"{M}:{q}")
+        opt = [p for p in sc.params() if "projection" in p.lower()]
+        if not opt:
+            continue
+        for st in walk_local(sc.node):
+            tests = []
+            if isinstance(st, (ast.If, ast.While)):
+                tests.append(st.test)
+            elif isinstance(st, ast.IfExp):
+                tests.append(st.test)
+            for t in tests:
+                names = {n.id for n in ast.walk(t) if isinstance(n, ast.Name)}
+                if opt[0] in names:
+                    sites.append((sc, t, opt[0]))
+    if len(sites) < 3:
+        raise Incomplete(f"{len(sites)} branches on the pressure-projection option found (3 on the reference tree)")
+    for (sc, t, o) in sites:
+        ok = isinstance(t, ast.Compare) and len(t.ops) == 1 and isinstance(t.ops[0], (ast.IsNot, ast.Is)) \
+            and isinstance(t.left, ast.Name) and t.left.id == o and isinstance(t.comparators[0], ast.Constant) \
+            and t.comparators[0].value is None
+        ctx.decide(rule, ok, sc, t, construct=f"guard:{sc.name}",
+                   detail=f"option tested as `{src(t)}`",
+                   bad_detail=f"pressure projection option is tested as `{src(t)}`; degree 0 is a valid value, so only "
+                              f"`{o} is not None` selects the projection consistently with the sibling factories")
+
+
 # ------------------------------------------------------------------ D3: blocks
 
 def d3_blocks(ctx):
@@ -627,8 +664,14 @@ def variants(repo):
     P = "optimism/Mechanics.py"
     F = "optimism/FunctionSpace.py"
     V = [
-        Variant("rename helper used only under projection", "optimism/Interpolants.py",
-                sub("def make_parent_element_2d_with_bubble(degree):", "def make_parent_element_2d_with_bubble(degree, dummy=None):\n    pass\ndef _unused(degree):"), None),
+        Variant("projection helper gains a required parameter", P,
+                sub("def volume_average_J_gradient_transformation(elemDispGrads, elemVols, pShapes):",
+                    "def volume_average_J_gradient_transformation(elemDispGrads, elemVols, pShapes, elemShapes):"),
+                "D1/T10-link"),
+        Variant("projection helper renamed at one use", P,
+                sub_in_func("define_pressure_projection_gradient_tranformation", "Interpolants.compute_shapes(masterJ, xigauss).values",
+                            "Interpolants.compute_shapes_on_tri(masterJ, xigauss)"),
+                "D1/T10-link"),
         Variant("hook with 4 parameters", P,
                 sub("def plane_strain_gradient_transformation(elemDispGrads, elemShapes, elemVols, elemNodalDisps, elemNodalCoords):",
                     "def plane_strain_gradient_transformation(elemDispGrads, elemShapes, elemVols, elemNodalDisps):"),
@@ -659,6 +702,9 @@ def variants(repo):
         Variant("unrestricted vols in evaluate_on_block", F,
                 sub("fs.shapeGrads[block], fs.vols[block],", "fs.shapeGrads[block], fs.vols,"),
                 "D3/T9-block-restricted"),
+        Variant("truthiness guard on projection degree", P,
+                sub_in_func("create_multi_block_mechanics_functions", "if pressureProjectionDegree is not None:", "if pressureProjectionDegree:"),
+                "D2/T6-projection-option-guard"),
         Variant("reformat Mechanics", P, reformat(), None),
         Variant("reformat FunctionSpace", F, reformat(), None),
         Variant("alpha-rename _compute_element_stiffnesses_multi_block", P,
